@@ -1,0 +1,30 @@
+//go:build verif
+
+package block
+
+import (
+	"github.com/ElrondNetwork/elrond-go/core"
+	"github.com/ElrondNetwork/elrond-go/data"
+	"github.com/ElrondNetwork/elrond-go/data/state"
+)
+
+// VerifUpdateStateStorage runs the real baseProcessor.updateStateStorage (pruning of the state of a block that became
+// final) on a processor that holds nothing but the checkpoint modulus.
+// Entry point for the simulation checks in /verif; compiled only with -tags verif.
+func VerifUpdateStateStorage(
+	stateCheckpointModulus uint,
+	finalHeader data.HeaderHandler,
+	rootHash []byte,
+	prevRootHash []byte,
+	accounts state.AccountsAdapter,
+	statePruningQueue core.Queue,
+) {
+	bp := &baseProcessor{stateCheckpointModulus: stateCheckpointModulus}
+	bp.updateStateStorage(finalHeader, rootHash, prevRootHash, accounts, statePruningQueue)
+}
+
+// VerifPruneStateOnRollback runs the real baseProcessor.PruneStateOnRollback for the user accounts state.
+func VerifPruneStateOnRollback(accounts state.AccountsAdapter, currHeader data.HeaderHandler, prevHeader data.HeaderHandler) {
+	bp := &baseProcessor{accountsDB: map[state.AccountsDbIdentifier]state.AccountsAdapter{state.UserAccountsState: accounts}}
+	bp.PruneStateOnRollback(currHeader, prevHeader)
+}
